@@ -57,6 +57,18 @@ class PathSummary:
     def sig(self) -> tuple:
         return (tuple(e for e in self.events if e[0] != "call"), self.exit_kind)
 
+    def consistent(self) -> bool:
+        """False when the path takes contradictory outcomes of a test on one tracked atom with no assignment in between."""
+        known: dict = {}
+        for e in self.events:
+            if e[0] == "cond":
+                if e[1] in known and known[e[1]] != e[2]:
+                    return False
+                known[e[1]] = e[2]
+            elif e[0] == "set":
+                known.pop(e[1], None)
+        return True
+
     def describe(self) -> list[str]:
         out = []
         for e in self.events:
@@ -162,7 +174,8 @@ class Handler:
                     evs.extend(self._events_of_node(n))
                 kind = "raise" if p[-1] is self.cfg.raise_exit else "return"
                 ps = PathSummary(evs, p, kind)
-                seen.setdefault(ps.sig(), ps)
+                if ps.consistent():
+                    seen.setdefault(ps.sig(), ps)
             self._paths = list(seen.values())
         return self._paths
 
